@@ -114,7 +114,9 @@ pub fn parse_line(line: &[u8]) -> Line {
         .split(|c| is_ws(*c))
         .filter(|f| !f.is_empty())
         .collect();
-    if fields.len() < 4 {
+    // 'ALGORITHM (name) = hash' / 'Size (name) = N bytes': anything with fewer fields, or
+    // without the '=', is not a line of either form
+    if fields.len() < 4 || fields[2] != b"=" {
         return Line::Nothing;
     }
     let f1 = fields[1];
@@ -139,20 +141,34 @@ pub fn parse_line(line: &[u8]) -> Line {
     Line::Nothing
 }
 
+/// How two recorded names are compared.
+#[derive(Clone, Copy, PartialEq, Eq, Debug)]
+pub enum NameEq {
+    /// the statement: "under exactly that name" - byte for byte
+    Bytes,
+    /// signature of known finding `distinfo-names-path-equality`: names that are equal as
+    /// paths (repeated or trailing '/', '.' segments) share one entry, under the first spelling
+    PathComponents,
+}
+
 /// Group recognised lines by file name in first-appearance order.  Names
 /// whose class is `Ambiguous` must not be passed (callers exclude them).
 pub fn parse(text: &[u8]) -> Model {
+    parse_with(text, NameEq::Bytes)
+}
+
+pub fn parse_with(text: &[u8], eq: NameEq) -> Model {
     let mut m = Model::default();
     for line in text.split(|c| *c == b'\n') {
         match parse_line(line) {
             Line::Nothing => {}
             Line::RcsId(r) => m.rcsid = Some(r),
             Line::Size(name, n) => {
-                let f = slot(&mut m, &name);
+                let f = slot(&mut m, &name, eq);
                 f.size = Some(n);
             }
             Line::Checksum(a, name, h) => {
-                let f = slot(&mut m, &name);
+                let f = slot(&mut m, &name, eq);
                 f.checksums.push((a, h));
             }
         }
@@ -160,12 +176,20 @@ pub fn parse(text: &[u8]) -> Model {
     m
 }
 
-fn slot<'a>(m: &'a mut Model, name: &[u8]) -> &'a mut File {
+fn same_name(a: &[u8], b: &[u8], eq: NameEq) -> bool {
+    use std::os::unix::ffi::OsStrExt;
+    match eq {
+        NameEq::Bytes => a == b,
+        NameEq::PathComponents => std::path::Path::new(std::ffi::OsStr::from_bytes(a)) == std::path::Path::new(std::ffi::OsStr::from_bytes(b)),
+    }
+}
+
+fn slot<'a>(m: &'a mut Model, name: &[u8], eq: NameEq) -> &'a mut File {
     let list = match classify(name) {
         Class::Patch => &mut m.patchfiles,
         _ => &mut m.distfiles,
     };
-    if let Some(i) = list.iter().position(|f| f.name == name) {
+    if let Some(i) = list.iter().position(|f| same_name(&f.name, name, eq)) {
         return &mut list[i];
     }
     list.push(File {
